@@ -18,10 +18,23 @@ import (
 
 // boardPost renders a post in the protocol's message-board format with the date masked.
 func boardPost(name, body string) string {
-	return "From " + name + " (DATE):\r\r" + body + "\r\r" + strings.Repeat("_", 58) + "\r"
+	return "From " + name + " " + datePlaceholder + ":\r\r" + body + "\r\r" + strings.Repeat("_", 58) + "\r"
 }
 
-func maskDates(s string) string { return reNewsDate.ReplaceAllString(s, "(DATE)") }
+// datePlaceholder has the length of a real date, so that masking does not move the 65535-byte field limit
+const datePlaceholder = "(Mon00 00:00)"
+
+func maskDates(s string) string { return reNewsDate.ReplaceAllString(s, datePlaceholder) }
+
+// boardEq compares what a client read (dates masked) with the model's board text: the field carries at most 65535
+// bytes, and a date cut by that limit is not masked, so the last len(datePlaceholder) bytes of a full field are not compared.
+func boardEq(got, want string) bool {
+	if len(want) <= 65535 {
+		return got == want
+	}
+	n := 65535 - len(datePlaceholder)
+	return len(got) == 65535 && got[:n] == want[:n]
+}
 
 type c19In struct {
 	Post bool
@@ -37,7 +50,7 @@ func genC19(rng *rand.Rand, c *Case) {
 	c.Cfg["seg_s2c"] = rng.Intn(2)
 	n := 2 + rng.Intn(5)
 	c.Cfg["clients"] = n
-	c.Cfg["board"] = []int{0, 300, 5000, 30000, 60000}[rng.Intn(5)]
+	c.Cfg["board"] = []int{0, 300, 5000, 30000, 60000, 64800, 65400, 70000}[rng.Intn(8)]
 	c.Cfg["agreement"] = []int{0, 50, 4000, 33000, 60000}[rng.Intn(5)]
 	c.Cfg["late_delay"] = rng.Intn(120)
 	c.Cfg["late"] = rng.Intn(n) // number of clients that log in late (while others post/read)
@@ -175,11 +188,7 @@ func runC19(w *World) {
 				}
 			}
 			sb.WriteString(initial)
-			want := sb.String()
-			if len(want) > 65535 {
-				want = want[:65535]
-			}
-			return output.(string) == want, state
+			return boardEq(output.(string), sb.String()), state
 		},
 		Equal: func(a, b interface{}) bool { return a.(string) == b.(string) },
 	}
@@ -352,11 +361,6 @@ func c19WitnessCheck(hist []porcupine.Operation, bodies map[int]string, initial,
 		cur = bodies[ps[k-1].id] + cur
 		states[k] = cur
 	}
-	for k := range states {
-		if len(states[k]) > 65535 {
-			states[k] = states[k][:65535]
-		}
-	}
 	type read struct {
 		inv, ret int64
 		out      string
@@ -387,7 +391,7 @@ func c19WitnessCheck(hist []porcupine.Operation, bodies map[int]string, initial,
 		}
 		r.k = -1
 		for k := lo; k <= hi; k++ {
-			if states[k] == r.out {
+			if boardEq(r.out, states[k]) {
 				r.k = k
 				break
 			}
